@@ -19,6 +19,7 @@ import (
 	"github.com/gardenbed/emerge/internal/ebnf/parser/spec"
 	"github.com/gardenbed/emerge/internal/generate/golang"
 	"github.com/gardenbed/emerge/verif/ev"
+	"github.com/gardenbed/emerge/verif/ref/ebnfref"
 	"github.com/gardenbed/emerge/verif/rt"
 )
 
@@ -42,6 +43,12 @@ var scenarios = []struct{ name, text string }{
 	// levels reports it), a token defined three times, three tokens with one value, an undefined token used in three rules
 	{"one-handle-in-four-levels", "grammar hf ;\n@left \"+\" \"-\" ;\n@right \"+\" ;\n@none \"+\" \"-\" ;\n@left \"+\" <e = e e> ;\n@right <e = e e> ;\n@none <e = e e> ;\nstart = e ;\ne = e \"+\" e | e \"-\" e | e e | \"i\" ;\n"},
 	{"repeated-identical-problems", "grammar rp ;\nAA = \"x\" ;\nAA = \"y\" ;\nAA = \"z\" ;\nBB = \"q\" ;\nCC = \"q\" ;\nDD = \"q\" ;\nEE = $NOPE ;\nFF = $NOPE ;\nstart = e UU ;\ne = UU AA | f UU BB | CC DD EE FF | g ;\nf = UU VV | g g ;\n"},
+	// an unresolved conflict whose report names synthesised rules (numbered names): the numbering must start afresh
+	{"conflict-naming-synthesised-rules", "grammar sy ;\nstart = e ;\ne = e ( \"+\" | \"-\" \"-\" ) e | [ \"!\" \"!\" ] \"i\" | {{ \"a\" \"b\" }} ;\n"},
+	// a rule that derives no terminal string next to an ambiguous one: the dependency's table builder either crashes
+	// (recovered by emerge) or reports the ambiguity, depending on the order of its shuffled sets - the known finding
+	// dep-lalr-crash-depends-on-order
+	{"rule-without-sentences", "grammar ns ;\nstart = start | \"a\" \"b\" ;\nx = x ;\n"},
 	// a literal spelled like a non-terminal: alternatives that differ only in the kind of a same-spelled symbol
 	{"look-alike-symbols", "grammar ls ;\nNUM = /[0-9]+/ ;\nstart = value ;\nvalue = NUM | null | \"null\" | \"value\" | \"[\" value \"]\" ;\nnull = \"nil\" | \"none\" | nil ;\nnil = \"null\" \"nil\" ;\n"},
 	{"valid-with-operators", "grammar ops ;\nID = $ID ;\nWS = $WS ;\n@left \"*\" ;\n@left \"+\" ;\nstart = { stmt } ;\nstmt = ID \"=\" e \";\" ;\ne = e \"+\" e | e \"*\" e | [ \"-\" ] ID | \"(\" e \")\" ;\n"},
@@ -147,6 +154,49 @@ func clip(s string) string {
 	return s
 }
 
+// tableErr cuts the report of the LALR(1) table construction out of an observation.
+func tableErr(obs string) (rest, report string) {
+	const marker = "error on building LALR(1) parsing table:"
+	i := strings.Index(obs, marker)
+	if i < 0 {
+		return obs, ""
+	}
+	j := strings.Index(obs[i:], "\nFILE ")
+	if k := strings.Index(obs[i:], "\nSTDERR\n"); k >= 0 && (j < 0 || k < j) {
+		j = k
+	}
+	if j < 0 {
+		return obs[:i], obs[i:]
+	}
+	return obs[:i] + obs[i+j:], obs[i : i+j]
+}
+
+// classify names the known finding that explains a pair of differing observations ("" = none).
+// dep-lalr-crash-depends-on-order: the specification has a rule that derives no terminal string, both observations
+// are identical outside the report of the table construction, and exactly one report is the recovered nil dereference
+// inside the dependency's table builder.
+func classify(text, a, b string) string {
+	ra, ta := tableErr(a)
+	rb, tb := tableErr(b)
+	if ta == "" || tb == "" || ra != rb {
+		return ""
+	}
+	if strings.Contains(ta, "nil pointer dereference") == strings.Contains(tb, "nil pointer dereference") {
+		return ""
+	}
+	sp, err := ebnfref.ParseSpec(text)
+	if err != nil {
+		return ""
+	}
+	langs := sp.Languages(6)
+	for _, d := range sp.Decls {
+		if rule, ok := d.(*ebnfref.Rule); ok && len(langs[rule.LHS]) == 0 {
+			return "dep-lalr-crash-depends-on-order"
+		}
+	}
+	return ""
+}
+
 type replayInput struct {
 	Scenario string
 	Choices  []int
@@ -197,7 +247,7 @@ func main() {
 		freshProcesses(r)
 	}
 	if r.Fork(16) {
-		r.Set("rule", "17 scenarios (every map on the path has >= 2 entries); one execution = spec.Parse + golang.Generate into a fresh directory with a recording UI; every range over a Go map in /repo and in the dependency and every shuffle of the dependency is a choice point; all executions with at most d non-default orders are enumerated (quick: d=1 over all /repo points and the first 3 occurrences of every dependency site; thorough: d=2 over /repo points, d=2 with the second deviation at a map range of /repo, d=1 over the first 12 occurrences of every other dependency site; dependency points reached directly from a line of /repo count as /repo points); states = distinct observations (must be 1 per scenario), transitions = executions")
+		r.Set("rule", "19 scenarios (every map on the path has >= 2 entries); one execution = spec.Parse + golang.Generate into a fresh directory with a recording UI; every range over a Go map in /repo and in the dependency and every shuffle of the dependency is a choice point; all executions with at most d non-default orders are enumerated (quick: d=1 over all /repo points and the first 3 occurrences of every dependency site; thorough: d=2 over /repo points, d=2 with the second deviation at a map range of /repo, d=1 over the first 12 occurrences of every other dependency site; dependency points reached directly from a line of /repo count as /repo points); states = distinct observations (must be 1 per scenario), transitions = executions")
 		r.Set("evaluations", r.Get("executions"))
 		r.Set("transitions", r.Get("executions"))
 		r.Set("traces_validated_against_impl", r.Get("executions"))
@@ -276,7 +326,7 @@ func main() {
 					if dev >= 0 {
 						site = points[dev].Site
 					}
-					r.Report("", fmt.Sprintf("scenario %s: observable output depends on the iteration order at %s (choice %v); %s", sc.name, site, trim(choices), firstDiff(baseFull, obs)),
+					r.Report(classify(sc.text, baseFull, obs), fmt.Sprintf("scenario %s: observable output depends on the iteration order at %s (choice %v); %s", sc.name, site, trim(choices), firstDiff(baseFull, obs)),
 						replayInput{Scenario: sc.name, Choices: trim(choices)})
 				}
 			}
@@ -366,7 +416,7 @@ func freshProcesses(r *ev.Run) {
 			if k == 0 {
 				first, firstFull = d, full
 			} else if d != first {
-				r.Report("", fmt.Sprintf("scenario %s: two runs of the command-line tool in fresh processes differ; %s", sc.name, firstDiff(firstFull, full)), replayInput{Scenario: sc.name})
+				r.Report(classify(sc.text, firstFull, full), fmt.Sprintf("scenario %s: two runs of the command-line tool in fresh processes differ; %s", sc.name, firstDiff(firstFull, full)), replayInput{Scenario: sc.name})
 				break
 			}
 			_ = os.RemoveAll(dir)
